@@ -275,6 +275,17 @@ Section Schemes.
         header_validate {| hrecs := recs'; herrs := errs; hmode := hmode h0 |} None lg false
     end.
 
+  (* MafHeader.from_lines(lines, ..., first_line_number=first): the lines are
+     numbered first, first+1, ... (from_lines above is the default, first = 1) *)
+  Definition header_from_lines_at (first : Z) (lines : list str) (m : option mode) (lg : logger) : out header :=
+    let h0 := header_new m in
+    let '(recs, errs) := parse_header_lines (first - 1) lines (hrecs h0) (herrs h0) in
+    match reapply_contigs recs with
+    | Raise e => oraise e
+    | Ok recs' =>
+        header_validate {| hrecs := recs'; herrs := errs; hmode := hmode h0 |} None lg false
+    end.
+
   (* ---------- from_reader / from_defaults ---------- *)
   Inductive so_arg := SoArgName (s : str) | SoArgInst (o : sorder) (own : list str).
 
